@@ -1267,3 +1267,122 @@ def _():
     b = ufl.Constant(m, shape=(2,))
     n = FacetNormal(m)
     return dot(K * b, n) * v * ds + dot(b, n("+")) * K[1, 0] * v("-") * dS
+
+
+# ---- higher-rank constants, dropped coefficients before surviving ones ----------------
+
+
+@reg("rank3_constant_triangle", "c01 c05 c08 c18 q")
+def _():
+    m = mesh("triangle")
+    V = space(m)
+    v = TestFunction(V)
+    f = ufl.Coefficient(V)
+    K = ufl.Constant(m, shape=(2, 3, 2))
+    s = ufl.Constant(m)
+    b = ufl.Constant(m, shape=(2,))
+    g = grad(f)
+    return (K[1, 2, 0] * g[0] + K[0, 1, 1] * g[1] + K[1, 0, 1] * f + s + b[1] * K[0, 2, 1]) * v * dx
+
+
+@reg("rank4_constant_elasticity_triangle", "c01 c05 c08 q")
+def _():
+    m = mesh("triangle")
+    V = space(m, shape=(2,))
+    u, v = TrialFunction(V), TestFunction(V)
+    Cc = ufl.Constant(m, shape=(2, 2, 2, 2))
+    i, j, k, l = ufl.indices(4)
+    return Cc[i, j, k, l] * grad(u)[k, l] * grad(v)[i, j] * dx
+
+
+@reg("coef_unused_in_some_integrals", "c01 c02 c05 c06 q", itypes=("cell", "exterior_facet"))
+def _():
+    m = mesh("triangle")
+    V = space(m)
+    P2 = space(m, deg=2)
+    v = TestFunction(V)
+    f = ufl.Coefficient(P2)
+    g = ufl.Coefficient(V)
+    h = ufl.Coefficient(P2)
+    return f * v * dx(1) + g * v * dx(2) + h * v * ds(1) + g * h * v * dx(3) + f * v * ds(2)
+
+
+# ---- complex literals on the test-function side ---------------------------------------
+
+
+@reg("cplx_literal_on_test_triangle", "c09 q", scalar="complex128")
+def _():
+    m = mesh("triangle")
+    V = space(m)
+    u, v = TrialFunction(V), TestFunction(V)
+    f = ufl.Coefficient(V)
+    z = 2.0 + 3.0j
+    return inner(f, z * v) * dx + inner(u, -1j * v) * dx + inner(f, v / z) * ds + ufl.conj(z * v) * f * dx + inner(grad(u), z * grad(v)) * dx
+
+
+@reg("cplx_literal_linear_triangle", "c09 q", scalar="complex128")
+def _():
+    m = mesh("triangle")
+    V = space(m)
+    v = TestFunction(V)
+    f = ufl.Coefficient(V)
+    k = ufl.Constant(m)
+    return inner(f, (1.5 - 0.5j) * v) * dx + inner(k * f, 1j * v) * dx(degree=1) + (0.5 + 2j) * inner(f, v) * dx
+
+
+# ---- sum factorisation with schemes / several degrees ---------------------------------
+
+
+@reg("sf_gll_scheme_Q2_quadrilateral", "c10 c10sf c08sf c11md q")
+def _():
+    m = tp_mesh("quadrilateral")
+    V = tp_space(m, 2)
+    u, v = TrialFunction(V), TestFunction(V)
+    return u * v * dx(metadata={"quadrature_rule": "GLL", "quadrature_degree": 2})
+
+
+@reg("sf_gll_scheme_Q1_hexahedron", "c10 c10sf c08sf")
+def _():
+    m = tp_mesh("hexahedron")
+    V = tp_space(m, 1)
+    f = ufl.Coefficient(V)
+    v = TestFunction(V)
+    return f * v * dx(metadata={"quadrature_rule": "GLL", "quadrature_degree": 3})
+
+
+@reg("sf_two_degrees_quadrilateral", "c10 c10sf c08sf q")
+def _():
+    m = tp_mesh("quadrilateral")
+    V = tp_space(m, 1)
+    f = ufl.Coefficient(V)
+    u, v = TrialFunction(V), TestFunction(V)
+    return u * v * dx(degree=2) + f * u * v * dx(degree=4)
+
+
+# ---- identical integrands under different metadata that resolve to one rule ------------
+
+
+@reg("same_integrand_same_rule_interval", "c01 c11 c11md q")
+def _():
+    m = mesh("interval")
+    V = space(m)
+    x = ufl.SpatialCoordinate(m)
+    v = TestFunction(V)
+    return x[0] ** 2 * v * dx(degree=2) + x[0] ** 2 * v * dx(degree=3)
+
+
+@reg("same_integrand_same_rule_quadrilateral", "c01 c11 c11md q")
+def _():
+    m = mesh("quadrilateral")
+    V = space(m, "Q", 1)
+    u, v = TrialFunction(V), TestFunction(V)
+    return u * v * dx(degree=4) + u * v * dx(degree=5) + u * v * dx
+
+
+@reg("same_integrand_same_rule_triangle", "c01 c02 c11 c11md q", itypes=("cell", "exterior_facet"))
+def _():
+    m = mesh("triangle")
+    V = space(m)
+    f = ufl.Coefficient(V)
+    v = TestFunction(V)
+    return f * v * dx(degree=0) + f * v * dx(degree=1) + f * v * ds(degree=2) + f * v * ds(degree=3)
